@@ -876,6 +876,13 @@ impl Glob {
     }
 }
 
+/// `Ctx::violation` with the replay built only for the first instance of a class.
+fn violate(ctx: &Ctx, sig: &str, what: &str, replay: &dyn Fn() -> Value) -> bool {
+    static SEEN: std::sync::Mutex<std::collections::BTreeSet<String>> = std::sync::Mutex::new(std::collections::BTreeSet::new());
+    let first = !ctx.is_known(sig) && SEEN.lock().unwrap().insert(sig.to_string());
+    ctx.violation(sig, what, if first { replay() } else { Value::Null })
+}
+
 fn judge(
     ctx: &Ctx,
     role: &str,
@@ -899,13 +906,13 @@ fn judge(
     let authentic = matches!(got, Cls::Accept | Cls::SrvBadTime);
     let cause = if authentic { exp.cause.as_str() } else { exp.cause.split('(').next().unwrap() };
     let sig = format!("C11|{role}|{op}|{cause}|expected {:?}|observed {:?}", exp.primary, got);
-    ctx.violation(
+    violate(ctx, 
         &sig,
         &format!(
             "{role}.{op}: RFC 8945 reference says {:?} ({}), library says {:?}; first seen with mutation '{mutation}'",
             exp.primary, exp.cause, got
         ),
-        replay(),
+        &replay,
     );
     false
 }
@@ -921,7 +928,7 @@ fn report_panic(ctx: &Ctx, role: &str, op: &str, cause: &str, msg: &str, replay:
         _ => pc,
     };
     let sig = format!("C11|{role}|{op}|{cause}|panic|{pc}");
-    ctx.violation(&sig, &format!("{role}.{op} panicked: {msg}"), replay());
+    violate(ctx, &sig, &format!("{role}.{op} panicked: {msg}"), &replay);
 }
 
 fn cls_of_validation(e: &ValidationError) -> Cls {
@@ -1029,7 +1036,7 @@ fn check_signed_by_lib(
     replay: &dyn Fn() -> Value,
 ) -> Option<Vec<u8>> {
     let fail = |what: &str, detail: String| {
-        ctx.violation(&format!("C11|{role}|{op}|signed-output|{what}"), &format!("{role}.{op}: {detail}"), replay());
+        violate(ctx, &format!("C11|{role}|{op}|signed-output|{what}"), &format!("{role}.{op}: {detail}"), &replay);
         None
     };
     let t = match ref_locate(signed) {
@@ -1110,7 +1117,7 @@ fn eval_server(ctx: &Ctx, l: &mut Local, sc: &ServerScen, msg: &[u8], mutation: 
     l.lib_cls[0][got as usize] += 1;
     let agreed = judge(ctx, "server", "request", &exp, got, mutation, &replay);
     if got == Cls::Unsigned && m.as_slice() != msg {
-        ctx.violation("C11|server|request|unsigned|message-modified", "request without TSIG was modified", replay());
+        violate(ctx, "C11|server|request|unsigned|message-modified", "request without TSIG was modified", &replay);
     }
     if got == Cls::Accept && agreed {
         let (ki, mac, stripped) = acc.unwrap();
@@ -1132,7 +1139,7 @@ fn eval_server(ctx: &Ctx, l: &mut Local, sc: &ServerScen, msg: &[u8], mutation: 
             match r {
                 Err(p) => report_panic(ctx, "server", "answer", &exp.cause, &p, &replay),
                 Ok(Err(e)) => {
-                    ctx.violation("C11|server|answer|push-error", &format!("answer() failed: {e}"), replay());
+                    violate(ctx, "C11|server|answer|push-error", &format!("answer() failed: {e}"), &replay);
                 }
                 Ok(Ok(())) => {
                     if check_signed_by_lib(ctx, "server", "answer-after-request", key, &mac_prefix(&mac), None, &sc.answer_presign,
@@ -1164,10 +1171,10 @@ fn check_restored(ctx: &Ctx, role: &str, op: &str, after: &[u8], presign: &[u8],
         l.c("accepted: stale TSIG octets remain behind the message end (ARCOUNT decremented only)");
     }
     if !ok {
-        ctx.violation(
+        violate(ctx, 
             &format!("C11|{role}|{op}|accepted|message-not-restored-to-pre-signing-octets"),
             &format!("{role}.{op}: after successful verification the message differs from the pre-signing octets"),
-            replay(),
+            &replay,
         );
     }
 }
@@ -1197,7 +1204,7 @@ fn check_server_error(
             return None;
         }
         Ok(Err(e)) => {
-            ctx.violation("C11|server-error|build_message|push-error", &format!("build_message failed: {e}"), replay());
+            violate(ctx, "C11|server-error|build_message|push-error", &format!("build_message failed: {e}"), &replay);
             return None;
         }
         Ok(Ok(b)) => b,
@@ -1218,7 +1225,7 @@ fn check_error_response(ctx: &Ctx, l: &mut Local, sc: &ServerScen, msg: &[u8], b
     let replay = || sc.replay(msg);
     let bytes = bytes.to_vec();
     let fail = |what: &str, detail: String| {
-        ctx.violation(&format!("C11|server-error|build_message|{got:?}|{what}"), &format!("error response for {got:?}: {detail}"), replay());
+        violate(ctx, &format!("C11|server-error|build_message|{got:?}|{what}"), &format!("error response for {got:?}: {detail}"), &replay);
     };
     if bytes.len() < 12 || get16(&bytes, 0) != get16(msg, 0) || bytes[2] & 0x80 == 0 {
         return fail("header", "ID not copied or QR not set".into());
@@ -1334,7 +1341,7 @@ impl ClientScen {
                 return None;
             }
             Ok(Err(e)) => {
-                ctx.violation(&format!("C11|{role}|request|push-error"), &format!("request() failed: {e}"), replay());
+                violate(ctx, &format!("C11|{role}|request|push-error"), &format!("request() failed: {e}"), &replay);
                 return None;
             }
             Ok(Ok(c)) => c,
@@ -1400,10 +1407,10 @@ impl ClientScen {
                     }
                     l.c(if r.is_ok() { "done: ok" } else { "done: error" });
                     if r.is_ok() != want_ok {
-                        ctx.violation(
+                        violate(ctx, 
                             &format!("C11|client-sequence|done|last-message-signed={want_ok}|observed ok={}", r.is_ok()),
                             "done() must succeed iff the last message of the sequence carried a TSIG",
-                            replay(),
+                            &replay,
                         );
                     }
                 }
@@ -1472,7 +1479,7 @@ fn client_eval(
             Commit::Signed { stripped, .. } => check_restored(ctx, role, op, m.as_slice(), stripped, l, &replay),
             Commit::Unsigned => {
                 if m.as_slice() != msg {
-                    ctx.violation(&format!("C11|{role}|{op}|unsigned-intermediate|message-modified"), "unsigned message was modified", replay());
+                    violate(ctx, &format!("C11|{role}|{op}|unsigned-intermediate|message-modified"), "unsigned message was modified", &replay);
                 }
             }
             Commit::None => {}
@@ -1481,7 +1488,7 @@ fn client_eval(
     if agreed && got == Cls::SrvBadTime {
         if let (Err(ValidationError::ServerBadTime { client, server }), Some((c, s))) = (&r, exp.times) {
             if u64::from(*client) != c || u64::from(*server) != s {
-                ctx.violation(&format!("C11|{role}|{op}|server-reports-badtime|times"), &format!("ServerBadTime carries ({},{}) instead of ({c},{s})", u64::from(*client), u64::from(*server)), replay());
+                violate(ctx, &format!("C11|{role}|{op}|server-reports-badtime|times"), &format!("ServerBadTime carries ({},{}) instead of ({c},{s})", u64::from(*client), u64::from(*server)), &replay);
             }
         }
     }
@@ -1773,14 +1780,14 @@ fn check_key_new(ctx: &Ctx, l: &mut Local, alg: Alg, mn: Option<usize>, sg: Opti
                 l.distinct.push(fnv(format!("key{alg:?}{mn:?}{sg:?}").as_bytes()));
             }
             if r.is_ok() != want {
-                ctx.violation(
+                violate(ctx, 
                     &format!("C11|key|new|length-in-rfc-range={want}|observed ok={}", r.is_ok()),
                     &format!("Key::new({alg:?}, min_mac_len {mn:?}, signing_len {sg:?}) -> ok={}, RFC 8945 5.2.2.1 range [{}, {}]", r.is_ok(), alg.floor(), alg.native()),
-                    replay(),
+                    &replay,
                 );
             } else if let Ok(k) = r {
                 if k.min_mac_len() != mn.unwrap_or(alg.native()) || k.signing_len() != sg.unwrap_or(alg.native()) || k.native_len() != alg.native() {
-                    ctx.violation("C11|key|new|lengths-not-as-configured", "Key reports other lengths than configured", replay());
+                    violate(ctx, "C11|key|new|lengths-not-as-configured", "Key reports other lengths than configured", &replay);
                 }
             }
         }
@@ -1930,7 +1937,7 @@ fn timesweep(ctx: &Ctx, l: &mut Local, alg: Alg, fudge: u16, tb: u64) {
             match guard(|| tx.answer_with_fudge(&mut b, Time48::from_u64(now_s), fudge).map_err(|e| format!("{e:?}"))) {
                 Err(p) => report_panic(ctx, "server", "answer_with_fudge", "", &p, &replay),
                 Ok(Err(e)) => {
-                    ctx.violation("C11|server|answer|push-error", &e, replay());
+                    violate(ctx, "C11|server|answer|push-error", &e, &replay);
                 }
                 Ok(Ok(())) => {
                     let signed = b.as_slice().to_vec();
@@ -1985,7 +1992,7 @@ fn server_sequence(ctx: &Ctx, l: &mut Local, kv: &KeySpec, count: usize, from_tx
                 return;
             }
             Ok(Err(e)) => {
-                ctx.violation("C11|server-sequence|answer|push-error", &e, replay());
+                violate(ctx, "C11|server-sequence|answer|push-error", &e, &replay);
                 return;
             }
             Ok(Ok(())) => {}
